@@ -161,9 +161,9 @@ def make_dim(nix, rng, da, n):
         ticks = []
         for _ in range(n):
             ticks.append(cur)
-            cur += F(rng.choice(["1", "0.5", "2", "0.25", "3", "0.125"]))
+            cur += F(rng.choice(["1", "0.5", "2", "0.25", "3", "0.125", "1", "0.5", "0"]))      # "0": a tick value may repeat
         d.ticks = [fr(float(t)) for t in ticks]
-        d.min_gap = min([b - a for a, b in zip(d.ticks, d.ticks[1:])] or [F(1)])
+        d.min_gap = min([b - a for a, b in zip(d.ticks, d.ticks[1:]) if b > a] or [F(1)])      # smallest POSITIVE gap (ticks may repeat)
         d.unit = mk_unit(rng) if rng.random() < 0.7 else None
         da.append_range_dimension([float(t) for t in ticks], unit=unit_str(d.unit))
     else:
@@ -355,6 +355,29 @@ class Runner:
             ec.append(ecls)
         return pos, (ext if with_extent else None), exact, tuple(pc), tuple(ec)
 
+    def exact_for(self, dims, pos, ext, units, scales):
+        """exact region of stored position / extent values under given units; None when a boundary is not robust"""
+        exact = []
+        for k in range(len(pos)):
+            d, sc = dims[k], scales[k]
+            a = fr(pos[k]) * sc
+            b = a if ext is None else a + fr(ext[k]) * sc
+            if abs(a) > 10 ** 9:
+                return None
+            ls = 1.0
+            if units is not None and d.kind in ("sample", "range") and d.unit is not None:
+                ls = self.lib_scale(units[k], d) or float(sc)
+            af = pos[k] * ls
+            bf = af if ext is None else ext[k] * ls + af
+            ra, rb = d.robust(a, af), d.robust(b, bf)
+            if ra is None or rb is None:
+                return None
+            a, b = d.snap(a, ra), d.snap(b, rb)
+            if ext is not None and ext[k] > 0 and not (b > a):
+                return None
+            exact.append((a, b, ext is None or ext[k] == 0.0))
+        return exact
+
     # ---- oracle ------------------------------------------------------------------------------------------------
     def expect(self, dims, exact, shape, inclusive_rule):
         sets, past = [], False
@@ -540,6 +563,37 @@ class Runner:
                     fsets = [list(range(n)) for n in fdata.shape]
                     self.judge("feature_data:%s" % ("untagged" if ltype == nix.LinkType.Untagged else "indexed_on_tag"), fcalls(rule), fdata, fsets,
                                False, False, sig + ("whole",), finf, rep)
+            if units is not None and scales is not None and trng.random() < 0.5:
+                self.restate_units(trng, dims, pos, ext, units, ("m%d_%d" if multi else "t%d_%d") % (ai, ti), multi, calls, data, info, rep,
+                                   (kinds, pc, ec, ucls, "MultiTag" if multi else "Tag"))
+
+    def restate_units(self, trng, dims, pos, ext, units, holder_name, multi, call_through_first, data, info, rep, sig):
+        """The units of the tag are changed through ANOTHER handle; the first handle (which has already been used to retrieve
+        data) must convert with the new units."""
+        nix, ctx = self.nix, self.ctx
+        new_units, new_scales = [], []
+        for k, u in enumerate(units):
+            d = dims[k]
+            if d.kind in ("set", "setnolabel") or d.unit is None or u in ("none", ""):
+                new_units.append(u)
+                new_scales.append(F(1))
+                continue
+            tp = trng.choice([p for p in PREFIXES if p + d.unit[1] + d.unit[2] != u])
+            new_units.append(tp + d.unit[1] + d.unit[2])
+            new_scales.append(F(10) ** ((PREFIXES[tp] - PREFIXES[d.unit[0]]) * power_of(d.unit)))
+        if new_units == list(units):
+            return
+        exact = self.exact_for(dims, pos, ext, new_units, new_scales)
+        if exact is None:
+            ctx.count("restated_units_not_robust_skipped")
+            return
+        other = (self.b.multi_tags if multi else self.b.tags)[holder_name]
+        other.units = new_units
+        ctx.count("units_restated_through_another_handle")
+        for rule in (nix.SliceMode.Exclusive, nix.SliceMode.Inclusive):
+            sets, past = self.expect(dims, exact, data.shape, rule == nix.SliceMode.Inclusive)
+            self.judge("tagged_data:after_units_changed_through_another_handle", call_through_first(rule), data, sets, past, False,
+                       sig + (rule.name, "restated"), dict(info, units=new_units, units_before=list(units), stop_rule=rule.name), rep)
 
     def close(self):
         try:
